@@ -426,7 +426,7 @@ Proof.
       * apply (i_hnd _ I).
     + unfold balanced; proj. rewrite out_push_block. unfold raw_out; proj. simpl.
       pose proof (out_set_pool st p (mkPool (pparams P) (S (pcount P)) (prefs P) (pheld P + grow) (palive P)) Hlt) as E.
-      unfold pool_out in E; proj. fold P in E. rewrite Hal in E. lia.
+      unfold pool_out in E; proj. fold P in E. rewrite Hal in E |- *. lia.
   - simpl. destruct (Nat.eqb_spec (pcount P) 0) as [Ec|Ec].
     + (* idle pool of other parameters: re-parameterised (line 119) *)
       assert (Hnone : forall b, b < nblocks st -> balive (blocks st b) = true ->
@@ -450,7 +450,7 @@ Proof.
         -- apply (i_hnd _ I).
       * unfold balanced; proj. rewrite out_push_block. unfold raw_out; proj. simpl.
         pose proof (out_set_pool st p (mkPool (get_params vt) 1 (prefs P) grow (palive P)) Hlt) as E.
-        unfold pool_out in E; proj. fold P in E. rewrite Hal in E. lia.
+        unfold pool_out in E; proj. fold P in E. rewrite Hal in E |- *. lia.
     + (* busy pool of other parameters: excluded by H *)
       exfalso. pose proof (i_cnt _ I p Hlt) as C. fold P in C. rewrite C in Ec.
       destruct (sumn_pos_ex _ _ Ec) as [b [Hb Hne]]. cbv beta in Hne. unfold pooled_in in Hne.
